@@ -3,7 +3,7 @@ From stdpp Require Import gmap list.
 From Coq Require Import NArith ZArith.
 From VFS Require Import Proofs.ConcProofs.
 From VFS Require Import Core.Types Core.Calls Base.MemFS Base.PhysFS Base.Embedded
-  Proofs.MemProofs Proofs.MemCalls Proofs.MoreMem Proofs.PhysProofs Proofs.PhysTimes.
+  Proofs.MemProofs Proofs.MemCalls Proofs.MoreMem Proofs.PhysProofs Proofs.PhysTimes Base.Store Proofs.SetterValue.
 
 Notation mstate := (gmap (list (list N)) memfile).
 
@@ -121,6 +121,14 @@ Theorem C19_open_file_stamps_only_the_access_time : forall (s : mstate) (p q : l
   end.
 Proof. exact get_reader_only_atime. Qed.
 
+(** whether a setter succeeds, is refused as not-supported or finds nothing is decided by the path and the state, never by
+    the value: on every kind of base filesystem a setter called with the entry's current value answers as with any other *)
+Theorem C19_setter_answer_is_value_free : forall (i : nat) p (t t' : Z) (st : store),
+  snd (fs_call i (CSetCTime p t) st) = snd (fs_call i (CSetCTime p t') st) /\
+  snd (fs_call i (CSetMTime p t) st) = snd (fs_call i (CSetMTime p t') st) /\
+  snd (fs_call i (CSetATime p t) st) = snd (fs_call i (CSetATime p t') st).
+Proof. intros. split; [apply ctime_value_free|split; [apply mtime_value_free|apply atime_value_free]]. Qed.
+
 Print Assumptions C19_set_creation.
 Print Assumptions C19_set_modification.
 Print Assumptions C19_set_access.
@@ -138,3 +146,4 @@ Print Assumptions C19_physical_modification.
 Print Assumptions C19_physical_access.
 Print Assumptions C19_physical_absent.
 Print Assumptions C19_open_file_stamps_only_the_access_time.
+Print Assumptions C19_setter_answer_is_value_free.
